@@ -363,4 +363,4 @@ def row_units(ctx, w, S, R, rule):
                 ctx.check(ok, rule, "%s:%s" % (fn, shared.site_key(w, fn, (bl, i))),
                           "%s compares the row index %s with the row count %s using %s: a row equal to the count is already outside (rows are 0..count-1), so the boundary case is treated as inside" %
                           (fn, w.tstr(fn, l)[:50], w.tstr(fn, r)[:50], op), loc=w.stmt_loc(fn, (bl, i)), sample={"fn": fn, "index": w.tstr(fn, l)[:50], "count": w.tstr(fn, r)[:50], "op": op})
-    ctx.floor(rule, 2, "row index / row count comparisons")
+    ctx.floor(rule, 1, "row index / row count comparisons")
